@@ -41,6 +41,13 @@ THEOREM_MODULES.append("Yarel.Props.FnsTie.Compiler")
 REQUIRED_THEOREMS += ['patch_jump_tie', 'emit_loop_tie', 'patch_offset_at_tie']
 
 
+# call_closure / return_impl translated from vm.rs on every run (Props/FnsTie/CallReturn): wrong arity and exhausted call depth are handed to the
+# exception machinery and push no frame; a call saves the resume point and pushes a frame at the callee; Return cuts the stack to the frame's base,
+# puts the result there and resumes the caller ("calls are atomic"); the last Return of a called fiber hands the result to the caller
+THEOREM_MODULES.append("Yarel.Props.FnsTie.CallReturn")
+REQUIRED_THEOREMS += ['call_effect', 'return_to_caller', 'call_return_roundtrip']
+
+
 def opnames():
     global OPNAMES
     if OPNAMES is None:
